@@ -2,6 +2,7 @@
 //! Built against /repo's working tree with --cfg ark_bulletproofs_verif and the instrumented Merlin.
 mod ast;
 mod comp_batch;
+mod comp_hostile;
 mod comp_ipp;
 mod comp_lc;
 mod comp_ped;
@@ -16,6 +17,9 @@ use std::collections::HashMap;
 use std::fs;
 use std::io::Write;
 use std::str::FromStr;
+
+#[global_allocator]
+static ALLOC: comp_hostile::Counting = comp_hostile::Counting;
 
 pub type Secq = ark_secq256k1::Affine;
 pub type Zorro = ark_bulletproofs::curve::zorro::G1Affine;
@@ -153,6 +157,10 @@ fn gen_batch_curve<G: AffineRepr>(curve: &str, ci: u64, seed: u64, tier: &str, s
         sink.impl_obs.push_str(&o.obs);
         sink.summary.push_str(&o.summary);
     }
+}
+
+fn hostile_curve<G: AffineRepr>(curve: &str, ci: u64, seed: u64, tier: &str, out: &mut String, t: &mut Vec<String>, b: &mut Vec<String>, d: &mut Vec<String>) {
+    comp_hostile::run::<G>(curve, ci, seed, tier, out, t, b, d);
 }
 
 fn cmd_gen(args: &[String]) {
@@ -296,6 +304,47 @@ fn main() {
             let seed: u64 = arg(&args[1..], "--seed", "1").parse().unwrap();
             let tier = arg(&args[1..], "--tier", "quick");
             print!("{}", comp_zorro::run(seed, &tier));
+        }
+        Some("hostile") => {
+            let seed: u64 = arg(&args[1..], "--seed", "1").parse().unwrap();
+            let tier = arg(&args[1..], "--tier", "quick");
+            let outd = arg(&args[1..], "--out", "/verif/work/hostile");
+            let only = arg(&args[1..], "--curves", "secq256k1,zorro,curve25519");
+            fs::create_dir_all(&outd).unwrap();
+            for (ci, curve) in CURVES.iter().enumerate() {
+                if !only.split(',').any(|c| c == *curve) {
+                    continue;
+                }
+                let mut out = String::new();
+                let mut tuples = vec![];
+                let mut batches = vec![];
+                let mut dec: Vec<String> = vec![];
+                comp_hostile::set_mark_file(&format!("{}/current_{}.txt", outd, curve));
+                let r = std::panic::catch_unwind(std::panic::AssertUnwindSafe(|| {
+                    with_curve!(*curve, hostile_curve, curve, ci as u64, seed, &tier, &mut out, &mut tuples, &mut batches, &mut dec);
+                }));
+                if r.is_err() {
+                    eprintln!("UNCAUGHT PANIC {}: {}", curve, run::last_panic());
+                    std::process::exit(101);
+                }
+                let _ = fs::remove_file(format!("{}/current_{}.txt", outd, curve));
+                fs::write(format!("{}/hostile_{}.txt", outd, curve), out).unwrap();
+                let mut coq = String::from("Require Import BP.Run.Shape.\nSet Printing Width 2000000000.\nSet Printing Depth 2000000000.\n");
+                for chunk in tuples.chunks(400) {
+                    coq.push_str(&format!("Eval vm_compute in [30%Z :: grid_classes [{}]].\n", chunk.join("; ")));
+                }
+                coq.push_str(&format!("Eval vm_compute in [31%Z :: batch_classes 8 [{}]].\n", batches.join("; ")));
+                fs::write(format!("{}/cases_{}.v", outd, ci), coq).unwrap();
+                for (k, chunk) in dec.chunks(5).enumerate() {
+                    let mut cq = String::from("Require Import BP.Run.Codec.\nSet Printing Width 2000000000.\nSet Printing Depth 2000000000.\n");
+                    for l in chunk {
+                        cq.push_str(l);
+                        cq.push('\n');
+                    }
+                    fs::write(format!("{}/cases_{}.v", outd, 100 * (ci + 1) + k), cq).unwrap();
+                }
+                println!("hostile {}: {} grid tuples, {} batches for the model", curve, tuples.len(), batches.len());
+            }
         }
         Some("msmcheck") => cmd_msmcheck(&args[1..]),
         Some("msmcheck2") => cmd_msmcheck2(&args[1..]),
